@@ -56,8 +56,28 @@ def mk(name, table=VARIANTS):
     return lambda: WbIcHarness(name, **kw)
 
 
+SOC_PREFIX = "soc:"       # cross-listed from C13: the interconnect soc.py really builds from a history of add_slave / add_master calls
+
+
 def configs(tier):
-    return [(n,) for n, (t, kw) in VARIANTS.items() if t == "quick" or tier == "thorough"]
+    out = [(n,) for n, (t, kw) in VARIANTS.items() if t == "quick" or tier == "thorough"]
+    if PROPERTY == "C06":
+        from checks import c13_soc_alloc as _c13
+        out += [(SOC_PREFIX + c[0],) + tuple(c[1:]) for c in _c13.configs(tier) if str(c[0]).startswith("busreal.")]
+    return out
+
+
+def run_soc_config(cfg, seed, tier):
+    """C13's busreal.* histories (real wishbone interfaces, add_master / add_slave with fixed, automatic and non power-of-two
+    regions, the REAL InterconnectShared / Crossbar built by SoCBusHandler.do_finalize, slave-select predicates read back from
+    the built Decoder(s) and evaluated over the address space).  Here only the routing side counts: no address selects two slaves,
+    every decoder accepts exactly its window."""
+    from checks import c13_soc_alloc as _c13
+    r = _c13._run_config((cfg[0][len(SOC_PREFIX):],) + tuple(cfg[1:]), seed, tier)
+    r["cfg"] = cfg[0]
+    r.pop("digests", None)
+    r["violations"] = [v for v in r.get("violations", []) if v["rule"].startswith(("decode.", "overlap."))]
+    return r
 
 
 def tuple_deep(x):
@@ -65,6 +85,8 @@ def tuple_deep(x):
 
 
 def run_config(cfg, seed, tier, table=VARIANTS):
+    if str(cfg[0]).startswith(SOC_PREFIX):
+        return run_soc_config(cfg, seed, tier)
     f = mk(cfg[0], table)
     H = f()
     res = Explorer(H, seed=seed).run()
@@ -80,6 +102,9 @@ def run_config(cfg, seed, tier, table=VARIANTS):
 
 
 def replay(rec, table=VARIANTS):
+    if str(rec["cfg"]).startswith(SOC_PREFIX):
+        from checks import c13_soc_alloc as _c13
+        return _c13.replay(rec)
     f = mk(rec["cfg"], table)
     cyc = [tuple_deep(c) for c in rec["cycle"]] if rec.get("cycle") else None
     q = [q for q in f().live_queries if q[0] == rec["rule"]][0] if cyc else None
